@@ -771,6 +771,11 @@ func (pr *vfProxyRun) learnSteps(id string, b *vfBench, rc *vfRecipe) {
 		// learned through the real UDP listener socket p1.t3 (the proxy then sends from that very socket)
 		pr.step(id, "learn", b, 0, 2, g.ip("10.0.1.1"), 5070, mk(g.ip("10.0.1.4"), g.ip("10.0.1.5")))
 		pr.step(id, "learn", b, 0, 2, g.ip("10.0.1.2"), 33000, mk(g.ip("10.0.1.2")))
+	case "hop.bk":
+		// the request that teaches the hops comes from a backend's own address
+		pr.step(id, "learn", b, 0, 0, g.ip("10.0.4.1"), 5060, mk(g.ip("10.0.1.1"), g.ip("10.0.1.4"), "n1.example.com"))
+	case "ua.p1real":
+		pr.step(id, "learn", b, 0, 2, g.ip("10.0.2.1"), 5062, mk(g.ip("10.0.2.1")))
 	case "hop.p2":
 		pr.step(id, "learn", b, 1, 0, g.ip("10.0.1.1"), 5070, mk(g.ip("10.0.1.5")))
 	}
